@@ -1,9 +1,9 @@
 package keeper
 
 import (
+	"bytes"
 	"encoding/binary"
 	"fmt"
-	"strings"
 
 	"github.com/tendermint/tendermint/libs/log"
 
@@ -109,18 +109,16 @@ func (k Keeper) IterateConsensusStates(
 	for ; iterator.Valid(); iterator.Next() {
 		key := iterator.Key()
 
-		keySplit := strings.Split(string(key), "/")
-		// consensus key is in the format "clients/<chainName>/consensusStates/<height>"
-		if len(keySplit) != 4 || keySplit[2] != string(host.KeyConsensusStatePrefix) {
+		// consensus key is in the format "clients/<chainName>/consensusStates/<height>" where <height>
+		// is 16 raw big-endian bytes (which may contain '/'), so it is parsed by position
+		chainName, path, ok := splitClientKey(key)
+		if !ok || len(path) != len(consensusStatePrefix)+16 || !bytes.HasPrefix(path, consensusStatePrefix) {
 			continue
 		}
-		chainName := keySplit[1]
-		//revinum := sdk.BigEndianToUint64(key[35:43])
-		//revihei := sdk.BigEndianToUint64(key[44:])
-		heightBytes := keySplit[3]
-		revisionUint64 := binary.BigEndian.Uint64([]byte(heightBytes[:8]))
-		heightUint64 := binary.BigEndian.Uint64([]byte(heightBytes[8:]))
-		height := types.MustParseHeight(fmt.Sprintf("%d-%d", revisionUint64, heightUint64))
+		heightBytes := path[len(consensusStatePrefix):]
+		revisionUint64 := binary.BigEndian.Uint64(heightBytes[:8])
+		heightUint64 := binary.BigEndian.Uint64(heightBytes[8:])
+		height := types.NewHeight(revisionUint64, heightUint64)
 		consensusState := k.MustUnmarshalConsensusState(iterator.Value())
 
 		consensusStateWithHeight := types.NewConsensusStateWithHeight(height, consensusState)
@@ -129,6 +127,23 @@ func (k Keeper) IterateConsensusStates(
 			break
 		}
 	}
+}
+
+var consensusStatePrefix = []byte(host.KeyConsensusStatePrefix + "/")
+
+// splitClientKey splits a key of the form "clients/<chainName>/<path>" into the chain name (which never
+// contains '/') and the path inside the client store (which may)
+func splitClientKey(key []byte) (chainName string, path []byte, ok bool) {
+	prefix := append(append([]byte{}, host.KeyClientStorePrefix...), '/')
+	if !bytes.HasPrefix(key, prefix) {
+		return "", nil, false
+	}
+	rest := key[len(prefix):]
+	i := bytes.IndexByte(rest, '/')
+	if i < 0 {
+		return "", nil, false
+	}
+	return string(rest[:i]), rest[i+1:], true
 }
 
 // GetAllGenesisClients returns all the clients in state with their client ids returned as IdentifiedClientState
@@ -247,15 +262,14 @@ func (k Keeper) IterateClients(
 
 	defer iterator.Close()
 	for ; iterator.Valid(); iterator.Next() {
-		keySplit := strings.Split(string(iterator.Key()), "/")
-		if keySplit[len(keySplit)-1] != host.KeyClientState {
+		// key is clients/{chainName}/clientState
+		chainName, path, ok := splitClientKey(iterator.Key())
+		if !ok || string(path) != host.KeyClientState {
 			continue
 		}
 		clientState := k.MustUnmarshalClientState(iterator.Value())
 
-		// key is xibc/{clientid}/clientState
-		// Thus, keySplit[1] is chainName
-		if cb(keySplit[1], clientState) {
+		if cb(chainName, clientState) {
 			break
 		}
 	}
